@@ -179,8 +179,13 @@ type Carrier struct {
 	Out     []Frame // frames written by this side, not yet delivered to the peer
 	Log     []Frame // frames written by this side since the last TakeLog
 	DecErr  error
+	Runaway bool // the multiplexer wrote an absurd number of frames: the carrier was cut
 	Peer    *Carrier
 }
+
+// maxFramesPerCase bounds what one side may write in one trace case (a runaway
+// writer loop must not exhaust the memory of the harness).
+const maxFramesPerCase = 50000
 
 // NewCarrierPair creates two connected carriers.
 func NewCarrierPair() (*Carrier, *Carrier) {
@@ -264,6 +269,12 @@ func (c *Carrier) Write(p []byte) (int, error) {
 	fs = Canonical(fs)
 	c.Out = append(c.Out, fs...)
 	c.Log = append(c.Log, fs...)
+	if c.batch > maxFramesPerCase || len(c.Out) > maxFramesPerCase {
+		c.Runaway = true
+		c.closed = true
+		c.cond.Broadcast()
+		return len(p), io.ErrClosedPipe
+	}
 	for c.stalled && !c.closed {
 		c.cond.Wait()
 	}
